@@ -18,3 +18,19 @@ chk("C01", "model_checking",
     "Exact probabilistic model checking: (a) kernels of every move obtained by summing the exact probabilities of all executions of the real code on the lattice; global balance and closedness as equalities of rationals on each move's own truncated space; (b) [when built] the sampler's joint Markov chain from every outcome of the real scheduler step.",
     "Trusted: lattice model; truncated spaces as the code defines them; outcome-independent completion schedules only.",
     "exhaustive execution enumeration with exact probabilities (probabilistic model checking)", "DESIGN.md 4/C01")
+chk("C02", "exploration",
+    "Every weight matrix of the reachable family up to a size (0/1 staircase rows in every order up to 6 plus-ensembles in the thorough tier, high-acceptance rows from weight alphabets incl. rescaled rows, every lock subset) is fed to the real inf_retis and compared with Fraction permanents; code paths are cross-compared; in every state of the L1 scheduler closure the cached prob must equal the oracle.",
+    "Trusted: permanent oracle (subset DP over Fractions). Not decided: blocks > 12 (random_prob is Monte Carlo by construction) and weights outside the alphabets.",
+    "exhaustive input enumeration + explicit-state closure", "DESIGN.md 4/C02")
+chk("C03", "model_checking",
+    "Breadth-first closure of the scheduler state machine on the real REPEX_state (real pick/pick_lock/prep_md_items/treat_output/assign_engines) for 2..4 ensembles (5 thorough), workers 1..n-1, both engine layouts, every completion order, every abstract outcome and every outcome of the real pick; mutual-exclusion invariants at every pick and in every state; exceptions raised by the code are verdicts.",
+    "Trusted: abstract moves (REJ / ACC with a real lattice path per reachable maximum), canonicalisation drops path numbers, counters, frac and RNG state; snapshots (deepcopy) are cross-validated against from-scratch replays.",
+    "explicit-state BFS on the implementation (snapshot + replay-validated)", "DESIGN.md 4/C03")
+chk("C04", "model_checking",
+    "On every transition of the same closure: per-step increment law (column sums 1/0, support on idle non-zero-weight paths), rows written exactly for the replaced paths with their accumulated weights, and the cumulative law rows + live weights (re-read from the restart file just written) = idle steps, carried along every explored history.",
+    "Trusted: as C03; data rows parsed from the data file, live weights from restart.toml.",
+    "explicit-state BFS on the implementation with per-transition and per-history oracles", "DESIGN.md 4/C04")
+chk("C05", "model_checking",
+    "Same closure plus wire-fencing rows and caps: perfect matching of the idle block (independent bipartite matching), finite doubly-stochastic P, non-zero diagonal for idle paths after every step, bounded sort_trajstate, distinct never-reused path numbers, and the restart file written at that moment loads through the real setup_config / REPEX_state / load_paths.",
+    "Trusted: as C03; restart loading uses the in-memory paths the restart file names (on-disk loading is C06/C08).",
+    "explicit-state BFS on the implementation", "DESIGN.md 4/C05")
